@@ -78,19 +78,24 @@ Proof. unfold build_exons. destruct new as [|f t]; [simpl; repeat split; discrim
   rewrite last_last. reflexivity. Qed.
 
 (* ---------------------------------------------------------------- corrected_exons_wf *)
-Theorem corrected_exons_wf fl c ex : events_wf fl c = true -> correct_assigned_read fl c = Ok ex -> sd ex.
-Proof. unfold events_wf, correct_assigned_read, process_events. rewrite !andb_true_iff. intros ((Hsd & _) & H) Hc.
+(* for both variants of the code (before / after the repairs of process_events) *)
+Theorem corrected_exons_wf_v vr fl c ex : events_wf_v vr fl c = true -> correct_assigned_read_v vr fl c = Ok ex -> sd ex.
+Proof. unfold events_wf_v, correct_assigned_read_v, process_events_v. rewrite !andb_true_iff. intros ((Hsd & _) & H) Hc.
   destruct (early_return c).
   - inversion Hc; subst. now apply sdg_b_sd.
-  - cbn [orb] in H. destruct (c_blocks fl c) as [bs|k]; [|discriminate]. inversion Hc; subst. clear Hc.
+  - cbn [orb] in H. destruct (c_blocks_v vr fl c) as [bs|k]; [|discriminate]. inversion Hc; subst. clear Hc.
     cbv zeta in H. rewrite !andb_true_iff in H. destruct H as (((_ & Hm) & Hr) & Hin).
     apply build_exons_sd; [now apply mono_b_spec| |lia].
     apply forallb_Forall in Hin. eapply Forall_impl; [|exact Hin]. unfold inside. intros; lia. Qed.
+Theorem corrected_exons_wf fl c ex : events_wf fl c = true -> correct_assigned_read fl c = Ok ex -> sd ex.
+Proof. exact (corrected_exons_wf_v repaired fl c ex). Qed.
 
-Theorem events_wf_returns fl c : events_wf fl c = true -> exists ex, correct_assigned_read fl c = Ok ex.
-Proof. unfold events_wf, correct_assigned_read, process_events. rewrite !andb_true_iff. intros (_ & H).
+Theorem events_wf_returns_v vr fl c : events_wf_v vr fl c = true -> exists ex, correct_assigned_read_v vr fl c = Ok ex.
+Proof. unfold events_wf_v, correct_assigned_read_v, process_events_v. rewrite !andb_true_iff. intros (_ & H).
   destruct (early_return c); [eexists; reflexivity|]. cbn [orb] in H.
-  destruct (c_blocks fl c); [eexists; reflexivity|discriminate]. Qed.
+  destruct (c_blocks_v vr fl c); [eexists; reflexivity|discriminate]. Qed.
+Theorem events_wf_returns fl c : events_wf fl c = true -> exists ex, correct_assigned_read fl c = Ok ex.
+Proof. exact (events_wf_returns_v repaired fl c). Qed.
 
 (* ---------------------------------------------------------------- Python list access *)
 Lemma py_nth_In {A} (l:list A) i x : py_nth l i = Some x -> In x l.
@@ -138,7 +143,7 @@ Proof. unfold regions_ordered. rewrite forallb_forall. intros H Hin. specialize 
 
 (* ---------------------------------------------------------------- one loop iteration *)
 Section StepFacts.
-Variables (fl:flags) (delta:Z) (rr:iv) (RI CI:list iv) (isoreg:iv) (II:list iv) (evs:list event).
+Variables (vr:variant) (fl:flags) (delta:Z) (rr:iv) (RI CI:list iv) (isoreg:iv) (II:list iv) (evs:list event).
 Hypothesis Hord : regions_ordered evs = true.
 
 Definition src_ok (x:iv) : Prop := In x RI \/ In x CI \/ (isoform_flags fl = true /\ In x II).
@@ -147,11 +152,12 @@ Definition upd_ok (u:regupd) : Prop :=
   | NoUpd => True
   | SetStart _ => exists e, In e evs /\ left_terminal_enabled fl e = true
   | SetEnd _ => exists e, In e evs /\ right_terminal_enabled fl e = true
+  | DropStart _ => exists e, In e evs /\ left_terminal_enabled fl e = true
   end.
 
-Lemma step_facts i b : 0 <= i -> step fl delta rr RI CI isoreg II (build_map fl evs) i = Ok b ->
+Lemma step_facts_v i b : 0 <= i -> step_v vr fl delta rr RI CI isoreg II (build_map fl evs) i = Ok b ->
   b_i b = i /\ i < b_next b /\ Forall src_ok (b_all b) /\ upd_ok (b_upd b).
-Proof. intros Hi. unfold step, opt_block, b_all.
+Proof. intros Hi. unfold step_v, opt_block, b_all.
   (* the fake-IR part *)
   assert (HF: forall fk, (match lookup (build_map fl evs) (- i - 1) with
                           | Some e => match py_nth II (fst (e_iso e)) with Some x => Ok [x] | None => Raises 1 end
@@ -170,8 +176,9 @@ Proof. intros Hi. unfold step, opt_block, b_all.
     destruct (regions_ordered_In evs e Hord Hin) as [?|(_ & Hab)]; [tauto|].
     assert (Hiso: forall x, In x II -> isoform_flags fl = true -> src_ok x) by (intros; right; right; tauto).
     destruct (is_type e MES_fake_terminal_exon_left && f_fake_terminal fl) eqn:B1.
-    { destruct (negb _); [discriminate|]. destruct (py_nth RI _); [|discriminate]. intros H; inversion H; subst; cbn.
-      repeat split; [lia|rewrite app_nil_r; exact HF|]. exists e. split; [exact Hin|unfold left_terminal_enabled; rewrite B1; reflexivity]. }
+    { destruct (negb _); [discriminate|]. destruct (py_nth RI _); [|discriminate].
+      destruct (v_fake vr); intros H; inversion H; subst; cbn;
+        (repeat split; [lia|first [constructor|rewrite app_nil_r; exact HF]|]); exists e; (split; [exact Hin|unfold left_terminal_enabled; rewrite B1; reflexivity]). }
     destruct (is_type e MES_fake_terminal_exon_right && f_fake_terminal fl) eqn:B2.
     { destruct (negb _); [discriminate|]. destruct (py_nth RI _); [|discriminate]. intros H; inversion H; subst; cbn.
       repeat split; [lia|rewrite app_nil_r; exact HF|]. exists e. split; [exact Hin|unfold right_terminal_enabled; rewrite B2; reflexivity]. }
@@ -208,48 +215,59 @@ Proof. intros Hi. unfold step, opt_block, b_all.
     repeat split; [lia|]. apply Forall_app; split; [exact HF|]. constructor; [|constructor]. right; left. eapply py_nth_In; eauto.
 Qed.
 
-Lemma loop_facts fuel : forall i bs, 0 <= i -> loop fl delta rr RI CI isoreg II (build_map fl evs) fuel i = Ok bs ->
+Lemma loop_facts_v fuel : forall i bs, 0 <= i -> loop_v vr fl delta rr RI CI isoreg II (build_map fl evs) fuel i = Ok bs ->
   Forall (fun b => Forall src_ok (b_all b) /\ upd_ok (b_upd b)) bs.
-Proof. induction fuel as [|f IH]; intros i bs Hi; cbn [loop].
+Proof. induction fuel as [|f IH]; intros i bs Hi; cbn [loop_v].
   - destruct (i <? _); [discriminate|]. intros H; inversion H; constructor.
   - destruct (i <? _); [|intros H; inversion H; constructor].
-    destruct (step _ _ _ _ _ _ _ _ i) as [b|] eqn:S; [|discriminate].
-    destruct (loop _ _ _ _ _ _ _ _ f (b_next b)) as [bs'|] eqn:L; [|discriminate]. intros H; inversion H; subst.
-    pose proof (step_facts i b Hi S) as (_ & Hn & Hs & Hu). constructor; [tauto|]. apply (IH (b_next b)); [lia|exact L]. Qed.
+    destruct (step_v _ _ _ _ _ _ _ _ _ i) as [b|] eqn:S; [|discriminate].
+    destruct (loop_v _ _ _ _ _ _ _ _ _ f (b_next b)) as [bs'|] eqn:L; [|discriminate]. intros H; inversion H; subst.
+    pose proof (step_facts_v i b Hi S) as (_ & Hn & Hs & Hu). constructor; [tauto|]. apply (IH (b_next b)); [lia|exact L]. Qed.
 End StepFacts.
+(* the instances for the repaired code *)
+Definition step_facts := step_facts_v repaired.
+Definition loop_facts := loop_facts_v repaired.
 
 (* ---------------------------------------------------------------- ends *)
-Lemma final_region_start rr bs : fst (final_region rr bs) = fst rr \/ exists b z, In b bs /\ b_upd b = SetStart z.
+Lemma final_region_start rr bs : fst (final_region rr bs) = fst rr \/ exists b z, In b bs /\ (b_upd b = SetStart z \/ b_upd b = DropStart z).
 Proof. unfold final_region. revert rr. induction bs as [|b t IH]; intros rr; [left; reflexivity|]. cbn [fold_left].
   destruct (IH (apply_upd rr (b_upd b))) as [E|(b' & z & Hin & Hu)]; [|right; exists b', z; split; [right; exact Hin|exact Hu]].
-  rewrite E. destruct (b_upd b) eqn:U; cbn; [left; reflexivity|right; exists b, z; split; [left; reflexivity|exact U]|left; reflexivity]. Qed.
+  rewrite E. destruct (b_upd b) eqn:U; cbn;
+    [left; reflexivity|right; exists b, z; split; [left; reflexivity|left; exact U]|left; reflexivity|right; exists b, z; split; [left; reflexivity|right; exact U]]. Qed.
 Lemma final_region_end rr bs : snd (final_region rr bs) = snd rr \/ exists b z, In b bs /\ b_upd b = SetEnd z.
 Proof. unfold final_region. revert rr. induction bs as [|b t IH]; intros rr; [left; reflexivity|]. cbn [fold_left].
   destruct (IH (apply_upd rr (b_upd b))) as [E|(b' & z & Hin & Hu)]; [|right; exists b', z; split; [right; exact Hin|exact Hu]].
-  rewrite E. destruct (b_upd b) eqn:U; cbn; [left; reflexivity|left; reflexivity|right; exists b, z; split; [left; reflexivity|exact U]]. Qed.
+  rewrite E. destruct (b_upd b) eqn:U; cbn; [left; reflexivity|left; reflexivity|right; exists b, z; split; [left; reflexivity|exact U]|left; reflexivity]. Qed.
 
+Lemma c_blocks_facts_v vr fl c bs : regions_ordered (c_events c) = true -> c_blocks_v vr fl c = Ok bs ->
+  Forall (fun b => Forall (src_ok fl (c_introns c) (corrected_introns_v vr fl c) (c_isointrons c)) (b_all b) /\ upd_ok fl (c_events c) (b_upd b)) bs.
+Proof. unfold c_blocks_v, blocks_v. intros Ho H. eapply loop_facts_v; [exact Ho| |exact H]. lia. Qed.
 Lemma c_blocks_facts fl c bs : regions_ordered (c_events c) = true -> c_blocks fl c = Ok bs ->
   Forall (fun b => Forall (src_ok fl (c_introns c) (corrected_introns fl c) (c_isointrons c)) (b_all b) /\ upd_ok fl (c_events c) (b_upd b)) bs.
-Proof. unfold c_blocks, blocks. intros Ho H. eapply loop_facts; [exact Ho| |exact H]. lia. Qed.
+Proof. exact (c_blocks_facts_v repaired fl c bs). Qed.
 
 (* a corrected read keeps its start (end) unless an event of a left (right) terminal-exon kind is present and its correction is enabled *)
-Theorem ends_preserved_unless_terminal_flag fl c ex : regions_ordered (c_events c) = true -> c_exons c <> [] ->
-  correct_assigned_read fl c = Ok ex -> ends_ok fl c ex = true.
-Proof. intros Ho Hne. unfold correct_assigned_read, process_events, ends_ok.
+Theorem ends_preserved_unless_terminal_flag_v vr fl c ex : regions_ordered (c_events c) = true -> c_exons c <> [] ->
+  correct_assigned_read_v vr fl c = Ok ex -> ends_ok fl c ex = true.
+Proof. intros Ho Hne. unfold correct_assigned_read_v, process_events_v, ends_ok.
   destruct (early_return c) eqn:Ee.
   - intros H; inversion H; subst. unfold c_region, hull. rewrite !Z.eqb_refl. cbn [orb andb].
     destruct (c_exons c); [congruence|reflexivity].
-  - destruct (c_blocks fl c) as [bs|] eqn:B; [|discriminate]. intros H; inversion H; subst. clear H.
+  - destruct (c_blocks_v vr fl c) as [bs|] eqn:B; [|discriminate]. intros H; inversion H; subst. clear H.
     pose proof (build_exons_ends (final_region (c_region c) bs) (emitted bs)) as (E1 & E2 & E3). rewrite E1, E2.
-    pose proof (c_blocks_facts fl c bs Ho B) as F. rewrite Forall_forall in F. cbn [negb andb].
+    pose proof (c_blocks_facts_v vr fl c bs Ho B) as F. rewrite Forall_forall in F. cbn [negb andb].
     apply andb_true_iff; split; [apply andb_true_iff; split|].
     + destruct (build_exons _ _); [congruence|reflexivity].
     + destruct (final_region_start (c_region c) bs) as [E|(b & z & Hin & Hu)]; [rewrite E, Z.eqb_refl; reflexivity|].
-      destruct (F b Hin) as (_ & Hup). rewrite Hu in Hup. destruct Hup as (e & He & Hl).
+      destruct (F b Hin) as (_ & Hup). assert (Hup': exists e, In e (c_events c) /\ left_terminal_enabled fl e = true) by (destruct Hu as [Hu|Hu]; rewrite Hu in Hup; exact Hup).
+      destruct Hup' as (e & He & Hl).
       apply orb_true_iff; right. apply existsb_exists. exists e; tauto.
     + destruct (final_region_end (c_region c) bs) as [E|(b & z & Hin & Hu)]; [rewrite E, Z.eqb_refl; reflexivity|].
       destruct (F b Hin) as (_ & Hup). rewrite Hu in Hup. destruct Hup as (e & He & Hl).
       apply orb_true_iff; right. apply existsb_exists. exists e; tauto. Qed.
+Theorem ends_preserved_unless_terminal_flag fl c ex : regions_ordered (c_events c) = true -> c_exons c <> [] ->
+  correct_assigned_read fl c = Ok ex -> ends_ok fl c ex = true.
+Proof. exact (ends_preserved_unless_terminal_flag_v repaired fl c ex). Qed.
 
 (* ---------------------------------------------------------------- where selected introns come from *)
 Definition matched_to (delta:Z) (known:list iv) (r k:iv) : Prop := In k known /\ py_equal_ranges r k delta = true.
@@ -285,13 +303,22 @@ Lemma potentials_spec delta known reads :
   Forall2 (fun r k => k = r \/ matched_to delta known r k) reads (match_genomic_features delta known reads).
 Proof. unfold match_genomic_features. apply choose_features_spec. apply mgf_sweep_spec; [apply incl_refl|intros; constructor]. Qed.
 
-Lemma fuzzy_In (P:iv -> iv -> Prop) reads pots : Forall2 P reads pots -> forall orc x, In x (fuzzy reads pots orc) ->
+Lemma fuzzy_unrepaired_In (P:iv -> iv -> Prop) reads pots : Forall2 P reads pots -> forall orc x, In x (fuzzy_unrepaired reads pots orc) ->
   exists r k, In r reads /\ P r k /\ (fst x = fst r \/ fst x = fst k) /\ (snd x = snd r \/ snd x = snd k).
-Proof. induction 1 as [|r k rs ks Hrk H IH]; intros orc x Hx; [destruct Hx|]. cbn [fuzzy] in Hx. destruct Hx as [Hx|Hx].
+Proof. induction 1 as [|r k rs ks Hrk H IH]; intros orc x Hx; [destruct Hx|]. cbn [fuzzy_unrepaired] in Hx. destruct Hx as [Hx|Hx].
   - exists r, k. split; [left; reflexivity|]. split; [exact Hrk|]. subst x. cbn [fst snd].
     split; [destruct (fst r =? fst k); [left; reflexivity|destruct (keep_read_site _); [left|right]; reflexivity]
            |destruct (snd r =? snd k); [left; reflexivity|destruct (keep_read_site _); [left|right]; reflexivity]].
   - destruct (IH _ _ Hx) as (r' & k' & Hin & HP & Hs). exists r', k'. split; [right; exact Hin|tauto]. Qed.
+(* the repaired choice: the fallbacks only go back to the read's own sites *)
+Lemma fuzzy_In (P:iv -> iv -> Prop) region reads pots : Forall2 P reads pots -> forall pe orc x, In x (fuzzy region pe reads pots orc) ->
+  exists r k, In r reads /\ P r k /\ (fst x = fst r \/ fst x = fst k) /\ (snd x = snd r \/ snd x = snd k).
+Proof. induction 1 as [|r k rs ks Hrk H IH]; intros pe orc x Hx; [destruct Hx|]. cbn [fuzzy] in Hx. cbv zeta in Hx. destruct Hx as [Hx|Hx].
+  - exists r, k. split; [left; reflexivity|]. split; [exact Hrk|]. subst x.
+    destruct (_ <? _); [split; left; reflexivity|]. cbn [fst snd]. split.
+    + destruct (_ <=? _); [left; reflexivity|]. destruct (fst r =? fst k); [left; reflexivity|destruct (keep_read_site _); [left|right]; reflexivity].
+    + destruct (_ <=? _); [left; reflexivity|]. destruct (snd r =? snd k); [left; reflexivity|destruct (keep_read_site _); [left|right]; reflexivity].
+  - destruct (IH _ _ _ Hx) as (r' & k' & Hin & HP & Hs). exists r', k'. split; [right; exact Hin|tauto]. Qed.
 
 Lemma site_allowed_own fl c left r : In r (c_introns c) -> site_allowed fl c left (side left r) = true.
 Proof. intros H. unfold site_allowed. apply orb_true_iff; left. apply orb_true_iff; left. apply existsb_exists. exists r. split; [exact H|lia]. Qed.
@@ -304,14 +331,19 @@ Lemma site_allowed_iso fl c left x : isoform_flags fl = true -> early_return c =
 Proof. intros Hf He Hx. unfold site_allowed. apply orb_true_iff; right. rewrite Hf, He. cbn [andb negb].
   apply existsb_exists. exists x. split; [exact Hx|lia]. Qed.
 
-Lemma src_site_allowed fl c x : early_return c = false ->
-  src_ok fl (c_introns c) (corrected_introns fl c) (c_isointrons c) x ->
+Lemma src_site_allowed vr fl c x : early_return c = false ->
+  src_ok fl (c_introns c) (corrected_introns_v vr fl c) (c_isointrons c) x ->
   site_allowed fl c true (fst x) = true /\ site_allowed fl c false (snd x) = true.
 Proof. intros He [H|[H|(Hf & H)]].
   - split; [exact (site_allowed_own fl c true x H)|exact (site_allowed_own fl c false x H)].
-  - unfold corrected_introns in H. destruct (f_fuzzy fl) eqn:Ff;
+  - unfold corrected_introns_v in H. destruct (f_fuzzy fl) eqn:Ff;
       [|split; [exact (site_allowed_own fl c true x H)|exact (site_allowed_own fl c false x H)]].
-    destruct (fuzzy_In _ _ _ (potentials_spec (c_delta c) (c_known c) (c_introns c)) _ _ H) as (r & k & Hr & Hk & Hs1 & Hs2).
+    assert (HI: exists r k, In r (c_introns c) /\ (k = r \/ matched_to (c_delta c) (c_known c) r k) /\
+                            (fst x = fst r \/ fst x = fst k) /\ (snd x = snd r \/ snd x = snd k)).
+    { destruct (v_fuzzy vr).
+      - exact (fuzzy_In _ _ _ _ (potentials_spec (c_delta c) (c_known c) (c_introns c)) _ _ _ H).
+      - exact (fuzzy_unrepaired_In _ _ _ (potentials_spec (c_delta c) (c_known c) (c_introns c)) _ _ H). }
+    destruct HI as (r & k & Hr & Hk & Hs1 & Hs2).
     assert (A: forall left, site_allowed fl c left (side left r) = true) by (intros; now apply site_allowed_own).
     assert (B: forall left, site_allowed fl c left (side left k) = true).
     { intros left. destruct Hk as [->|Hk]; [apply A|]. eapply site_allowed_known; eauto. }
@@ -358,26 +390,42 @@ Proof. unfold build_exons. destruct new as [|f t]; [constructor|]. set (new := f
     + destruct (Hmid' b Hb) as (_ & (y & Hy & E)). exists y. split; [exact Hy|lia].
     + exists (last new f). split; [apply last_In; discriminate|cbn [fst]; lia]. Qed.
 
+Notation emit_step := (fun acc b => match b_upd b with DropStart _ => [] | _ => acc ++ b_all b end).
+Lemma emitted_acc_In bs : forall acc x, In x (fold_left emit_step bs acc) -> In x acc \/ exists b, In b bs /\ In x (b_all b).
+Proof. induction bs as [|b t IH]; intros acc x Hx; [left; exact Hx|]. cbn [fold_left] in Hx.
+  destruct (IH _ _ Hx) as [H|(b' & Hb' & H)]; [|right; exists b'; split; [right; exact Hb'|exact H]].
+  assert (H': In x (acc ++ b_all b)) by (destruct (b_upd b); solve [exact H|destruct H]).
+  apply in_app_or in H'. destruct H' as [H'|H']; [left; exact H'|right; exists b; split; [left; reflexivity|exact H']]. Qed.
 Lemma emitted_In bs x : In x (emitted bs) -> exists b, In b bs /\ In x (b_all b).
-Proof. unfold emitted. rewrite in_flat_map. tauto. Qed.
+Proof. unfold emitted. intros H. destruct (emitted_acc_In bs [] x H) as [[]|H']; exact H'. Qed.
+(* when no block discards, the emitted introns are the blocks' introns in order *)
+Lemma emitted_acc_nodrop bs : Forall (fun b => b_upd b = NoUpd) bs -> forall acc, fold_left emit_step bs acc = acc ++ flat_map b_all bs.
+Proof. induction 1 as [|b t Hb Ht IH]; intros acc; [cbn; now rewrite app_nil_r|]. cbn [fold_left flat_map]. rewrite Hb, IH, app_assoc. reflexivity. Qed.
+Lemma emitted_nodrop bs : Forall (fun b => b_upd b = NoUpd) bs -> emitted bs = flat_map b_all bs.
+Proof. intros H. unfold emitted. now rewrite (emitted_acc_nodrop bs H []). Qed.
+Lemma final_region_noupd rr bs : Forall (fun b => b_upd b = NoUpd) bs -> final_region rr bs = rr.
+Proof. unfold final_region. induction 1 as [|b t Hb Ht IH]; [reflexivity|]. cbn [fold_left]. rewrite Hb. exact IH. Qed.
 
 (* every splice site of the corrected alignment is the read's own, or the corresponding site of an annotated intron within
    delta of a read intron (fuzzy-junction flag), or a site of an intron of the assigned isoform (a flag inserting / restoring them) *)
-Theorem sites_from_allowed_sources fl c ex : regions_ordered (c_events c) = true ->
-  correct_assigned_read fl c = Ok ex -> sites_ok fl c ex = true.
-Proof. intros Ho. unfold correct_assigned_read, process_events, sites_ok.
+Theorem sites_from_allowed_sources_v vr fl c ex : regions_ordered (c_events c) = true ->
+  correct_assigned_read_v vr fl c = Ok ex -> sites_ok fl c ex = true.
+Proof. intros Ho. unfold correct_assigned_read_v, process_events_v, sites_ok.
   destruct (early_return c) eqn:Ee.
   - intros H; inversion H; subst. apply forallb_forall. intros j Hj. fold (c_introns c) in Hj.
     rewrite (site_allowed_own fl c true j Hj : site_allowed fl c true (fst j) = true).
     rewrite (site_allowed_own fl c false j Hj : site_allowed fl c false (snd j) = true). reflexivity.
-  - destruct (c_blocks fl c) as [bs|] eqn:B; [|discriminate]. intros H; inversion H; subst. clear H.
-    pose proof (c_blocks_facts fl c bs Ho B) as F. rewrite Forall_forall in F.
+  - destruct (c_blocks_v vr fl c) as [bs|] eqn:B; [|discriminate]. intros H; inversion H; subst. clear H.
+    pose proof (c_blocks_facts_v vr fl c bs Ho B) as F. rewrite Forall_forall in F.
     assert (S: forall x, In x (emitted bs) -> site_allowed fl c true (fst x) = true /\ site_allowed fl c false (snd x) = true).
     { intros x Hx. destruct (emitted_In bs x Hx) as (b & Hb & Hxb). destruct (F b Hb) as (Hs & _). rewrite Forall_forall in Hs.
-      apply src_site_allowed; [exact Ee|auto]. }
+      apply (src_site_allowed vr); [exact Ee|auto]. }
     pose proof (build_exons_introns (final_region (c_region c) bs) (emitted bs)) as I. rewrite Forall_forall in I.
     apply forallb_forall. intros j Hj. destruct (I j Hj) as ((x & Hx & E1) & (y & Hy & E2)). rewrite E1, E2.
     destruct (S x Hx) as (-> & _). destruct (S y Hy) as (_ & ->). reflexivity. Qed.
+Theorem sites_from_allowed_sources fl c ex : regions_ordered (c_events c) = true ->
+  correct_assigned_read fl c = Ok ex -> sites_ok fl c ex = true.
+Proof. exact (sites_from_allowed_sources_v repaired fl c ex). Qed.
 
 (* ---------------------------------------------------------------- strategy none: identity *)
 Lemma nth_error_skipn {A} (l:list A) : forall k x, nth_error l k = Some x -> skipn k l = x :: skipn (Datatypes.S k) l.
@@ -413,13 +461,13 @@ Lemma build_map_none_keys evs k e : lookup (build_map no_flags evs) k = Some e -
 Proof. intros H. apply lookup_entry in H. destruct H as (Hin & [(Hk & Hna)|(_ & _ & Hm)]); cbn [fst snd] in *; [tauto|discriminate]. Qed.
 
 Section NoneFacts.
-Variables (delta:Z) (rr:iv) (RI:list iv) (isoreg:iv) (II:list iv) (evs:list event).
+Variables (vr:variant) (delta:Z) (rr:iv) (RI:list iv) (isoreg:iv) (II:list iv) (evs:list event).
 Hypothesis Hord : regions_ordered evs = true.
 Let n := Z.of_nat (length RI).
 
-Lemma step_none i b : 0 <= i -> step no_flags delta rr RI RI isoreg II (build_map no_flags evs) i = Ok b ->
+Lemma step_none i b : 0 <= i -> step_v vr no_flags delta rr RI RI isoreg II (build_map no_flags evs) i = Ok b ->
   b_i b = i /\ i < b_next b <= n /\ b_upd b = NoUpd /\ b_all b = firstn (Z.to_nat (b_next b - i)) (skipn (Z.to_nat i) RI).
-Proof. intros Hi. unfold step, opt_block, b_all.
+Proof. intros Hi. unfold step_v, opt_block, b_all.
   destruct (lookup (build_map no_flags evs) (- i - 1)) as [e|] eqn:L1.
   { apply build_map_none_keys in L1. destruct L1 as (Hk & Hna & Hin). destruct (regions_ordered_In evs e Hord Hin); lia. }
   destruct (lookup (build_map no_flags evs) i) as [e|] eqn:L.
@@ -436,20 +484,23 @@ Proof. intros Hi. unfold step, opt_block, b_all.
     destruct (py_nth_nonneg RI i x Hi P) as (N & Hlt). subst n. repeat split; [lia|lia|].
     replace (Z.to_nat (i + 1 - i)) with 1%nat by lia. rewrite (nth_error_skipn RI _ x N). reflexivity. Qed.
 
-Lemma loop_none fuel : forall i bs, 0 <= i <= n -> loop no_flags delta rr RI RI isoreg II (build_map no_flags evs) fuel i = Ok bs ->
-  emitted bs = skipn (Z.to_nat i) RI /\ final_region rr bs = rr.
-Proof. induction fuel as [|f IH]; intros i bs Hi; cbn [loop]; unfold n_introns; fold n.
-  - destruct (i <? n) eqn:E; [discriminate|]. intros H; inversion H. split; [|reflexivity].
+Lemma loop_none_blocks fuel : forall i bs, 0 <= i <= n -> loop_v vr no_flags delta rr RI RI isoreg II (build_map no_flags evs) fuel i = Ok bs ->
+  Forall (fun b => b_upd b = NoUpd) bs /\ flat_map b_all bs = skipn (Z.to_nat i) RI.
+Proof. induction fuel as [|f IH]; intros i bs Hi; cbn [loop_v]; unfold n_introns; fold n.
+  - destruct (i <? n) eqn:E; [discriminate|]. intros H; inversion H. split; [constructor|].
     cbn. symmetry. apply skipn_all2. subst n. lia.
   - destruct (i <? n) eqn:E.
-    + destruct (step _ _ _ _ _ _ _ _ i) as [b|] eqn:S; [|discriminate].
-      destruct (loop _ _ _ _ _ _ _ _ f (b_next b)) as [bs'|] eqn:L; [|discriminate]. intros H; inversion H; subst. clear H.
+    + destruct (step_v _ _ _ _ _ _ _ _ _ i) as [b|] eqn:S; [|discriminate].
+      destruct (loop_v _ _ _ _ _ _ _ _ _ f (b_next b)) as [bs'|] eqn:L; [|discriminate]. intros H; inversion H; subst. clear H.
       destruct (step_none i b ltac:(lia) S) as (_ & Hn & Hu & Ha). destruct (IH (b_next b) bs' ltac:(lia) L) as (E1 & E2).
-      split.
-      * unfold emitted in *. cbn [flat_map]. rewrite E1, Ha.
-        replace (Z.to_nat (b_next b)) with (Z.to_nat i + Z.to_nat (b_next b - i))%nat by lia. apply firstn_skipn_glue.
-      * unfold final_region in *. cbn [fold_left]. rewrite Hu. exact E2.
-    + intros H; inversion H. split; [|reflexivity]. cbn. symmetry. apply skipn_all2. subst n. lia. Qed.
+      split; [constructor; assumption|].
+      cbn [flat_map]. rewrite E2, Ha.
+      replace (Z.to_nat (b_next b)) with (Z.to_nat i + Z.to_nat (b_next b - i))%nat by lia. apply firstn_skipn_glue.
+    + intros H; inversion H. split; [constructor|]. cbn. symmetry. apply skipn_all2. subst n. lia. Qed.
+Lemma loop_none fuel : forall i bs, 0 <= i <= n -> loop_v vr no_flags delta rr RI RI isoreg II (build_map no_flags evs) fuel i = Ok bs ->
+  emitted bs = skipn (Z.to_nat i) RI /\ final_region rr bs = rr.
+Proof. intros i bs Hi H. destruct (loop_none_blocks fuel i bs Hi H) as (F & E).
+  split; [rewrite (emitted_nodrop bs F); exact E|exact (final_region_noupd rr bs F)]. Qed.
 End NoneFacts.
 
 (* exons with a gap between consecutive ones are rebuilt exactly from their hull and their introns *)
@@ -489,14 +540,17 @@ Proof. intros H Hne. destruct ex as [|a t]; [congruence|]. destruct t as [|b t].
       rewrite Ef. cbn [fst]. replace (snd a + 1 - 1) with (snd a) by lia. destruct a; reflexivity. Qed.
 
 (* with --splice_correction_strategy none the corrected exons are the input exons *)
+Theorem strategy_none_identity_v vr c ex : sdg_b (c_exons c) = true -> c_exons c <> [] -> regions_ordered (c_events c) = true ->
+  correct_assigned_read_v vr (strategy_flags St_none) c = Ok ex -> ex = c_exons c.
+Proof. intros Hs Hne Ho. change (strategy_flags St_none) with no_flags. unfold correct_assigned_read_v, process_events_v.
+  destruct (early_return c); [intros H; inversion H; reflexivity|].
+  destruct (c_blocks_v vr no_flags c) as [bs|] eqn:B; [|discriminate]. intros H; inversion H; subst. clear H.
+  unfold c_blocks_v, blocks_v in B. change (corrected_introns_v vr no_flags c) with (c_introns c) in B.
+  destruct (loop_none vr (c_delta c) (c_region c) (c_introns c) (c_isoreg c) (c_isointrons c) (c_events c) Ho _ 0 bs ltac:(lia) B) as (E1 & E2).
+  rewrite E1, E2. cbn [Z.to_nat skipn]. apply rebuild_exons; assumption. Qed.
 Theorem strategy_none_identity c ex : sdg_b (c_exons c) = true -> c_exons c <> [] -> regions_ordered (c_events c) = true ->
   correct_assigned_read (strategy_flags St_none) c = Ok ex -> ex = c_exons c.
-Proof. intros Hs Hne Ho. change (strategy_flags St_none) with no_flags. unfold correct_assigned_read, process_events.
-  destruct (early_return c); [intros H; inversion H; reflexivity|].
-  destruct (c_blocks no_flags c) as [bs|] eqn:B; [|discriminate]. intros H; inversion H; subst. clear H.
-  unfold c_blocks, blocks in B. change (corrected_introns no_flags c) with (c_introns c) in B.
-  destruct (loop_none (c_delta c) (c_region c) (c_introns c) (c_isoreg c) (c_isointrons c) (c_events c) Ho _ 0 bs ltac:(lia) B) as (E1 & E2).
-  rewrite E1, E2. cbn [Z.to_nat skipn]. apply rebuild_exons; assumption. Qed.
+Proof. exact (strategy_none_identity_v repaired c ex). Qed.
 
 (* ---------------------------------------------------------------- Illumina corrector *)
 Lemma sd_hull l d : sd l -> l <> [] -> fst (hd d l) <= snd (last l d).
@@ -561,3 +615,167 @@ Proof. intros Hs Hne Hp. destruct (bed_row_valid ex Hs Hne) as (H1 & H2 & H3 & H
   assert (Hd: hd (-1) (bed_starts ex) = 0).
   { unfold bed_starts in *. destruct ex; [congruence|]. cbn [map hd] in *. lia. }
   rewrite Hd. cbn [andb]. rewrite !andb_true_iff. repeat split; lia. Qed.
+
+(* ---------------------------------------------------------------- the repaired fuzzy-junction choice (fixes/C01_fuzzy_junction_keeps_exons.diff) *)
+Lemma sdg_b_mono_b l : sdg_b l = true -> mono_b l = true.
+Proof. induction l as [|a t IH]; [reflexivity|]. cbn [sdg_b mono_b]. rewrite !andb_true_iff. intros ((H1 & H2) & H3).
+  split; [split; [exact H1|]|exact (IH H3)]. destruct t as [|b t']; [reflexivity|]. lia. Qed.
+
+(* the position a corrected intron has to start after: the base after the previous corrected intron, or the read start *)
+Definition lower_of (region:iv) (prev_end:option Z) : Z := match prev_end with Some e => e + 1 | None => fst region end.
+
+(* the invariant of the loop over the read introns: the next read intron starts after `lower_of region prev_end` *)
+Theorem fuzzy_wf_prev region : forall reads prev_end pots orc,
+  sdg_b reads = true -> Forall (fun r => snd r < snd region) reads ->
+  (forall r, hd_error reads = Some r -> lower_of region prev_end < fst r) ->
+  let cs := fuzzy region prev_end reads pots orc in
+  length cs = Nat.min (length reads) (length pots) /\
+  sdg_b cs = true /\
+  Forall (fun c => lower_of region prev_end < fst c /\ snd c < snd region) cs /\
+  (forall k c r', nth_error cs k = Some c -> nth_error reads (Datatypes.S k) = Some r' -> snd c + 1 < fst r').
+Proof. induction reads as [|r rs IH]; intros prev_end pots orc Hs Hin Hlo; cbv zeta.
+  - cbn. repeat split; [constructor|]. intros k c r' H. destruct k; discriminate.
+  - destruct pots as [|k ks].
+    { cbn. repeat split; [constructor|]. intros k c r' H. destruct k; discriminate. }
+    cbn [fuzzy]. cbv zeta. change (match prev_end with Some e => e + 1 | None => fst region end) with (lower_of region prev_end).
+    set (lo := lower_of region prev_end).
+    set (l0 := if fst r =? fst k then fst r else if keep_read_site (fst (hd (0, 0, (0, 0)) orc)) then fst r else fst k).
+    set (r0 := if snd r =? snd k then snd r else if keep_read_site (snd (hd (0, 0, (0, 0)) orc)) then snd r else snd k).
+    set (upper := match rs with r' :: _ => fst r' - 1 | [] => snd region end).
+    set (c := if (if upper <=? r0 then snd r else r0) <? (if l0 <=? lo then fst r else l0) then r else (if l0 <=? lo then fst r else l0, if upper <=? r0 then snd r else r0)).
+    assert (Hlr: lo < fst r) by (apply Hlo; reflexivity).
+    cbn [sdg_b] in Hs. rewrite !andb_true_iff in Hs. destruct Hs as ((Hr & Hnext) & Hs').
+    assert (Hrs: Forall (fun r => snd r < snd region) rs) by (inversion Hin; assumption).
+    assert (Hrr: snd r < snd region) by (inversion Hin; assumption).
+    assert (Hup: snd r < upper /\ upper <= snd region).
+    { subst upper. destruct rs as [|r' rs']; [lia|]. inversion Hrs; subst. cbn [sdg_b] in Hs'. rewrite !andb_true_iff in Hs'. lia. }
+    assert (Hc: lo < fst c /\ fst c <= snd c /\ snd c < upper).
+    { subst c. destruct (upper <=? r0) eqn:E1; destruct (l0 <=? lo) eqn:E2;
+        match goal with |- context [if ?a <? ?b then _ else _] => destruct (a <? b) eqn:E3 end; cbn [fst snd]; lia. }
+    specialize (IH (Some (snd c)) ks (tl orc) Hs' Hrs).
+    assert (Hhd: forall r0, hd_error rs = Some r0 -> lower_of region (Some (snd c)) < fst r0).
+    { intros r1 H1. destruct rs as [|r' rs']; [discriminate|]. inversion H1; subst r1. subst upper. cbn [lower_of]. lia. }
+    specialize (IH Hhd). cbv zeta in IH. cbn [lower_of] in IH. destruct IH as (L & S & F & N).
+    split; [cbn [length Nat.min]; now rewrite L|]. split; [|split].
+    + cbn [sdg_b]. rewrite S. rewrite !andb_true_iff. split; [split; [lia|]|reflexivity].
+      destruct (fuzzy region (Some (snd c)) rs ks (tl orc)) as [|c' t']; [reflexivity|]. inversion F; subst. lia.
+    + constructor; [lia|]. eapply Forall_impl; [|exact F]. cbv beta. intros; lia.
+    + intros j c0 r' H1 H2. destruct j as [|j].
+      * cbn in H1, H2. inversion H1; subst c0. destruct rs as [|r1 rs']; [discriminate|]. inversion H2; subst r1. subst upper. lia.
+      * cbn [nth_error] in H1. change (nth_error (r :: rs) (Datatypes.S (Datatypes.S j))) with (nth_error rs (Datatypes.S j)) in H2. exact (N j c0 r' H1 H2). Qed.
+
+(* for read introns that are well-formed, separated by at least one base and strictly inside the read region, and ANY potential
+   introns and ANY answers of get_error_count: the corrected introns are as many as min(reads, potentials), well-formed, separated by at
+   least one base (so the exons between them are non-empty), strictly inside the read region, and each ends before the next read intron *)
+Theorem fuzzy_wf region reads pots orc : sdg_b reads = true -> forallb (inside region) reads = true ->
+  let cs := fuzzy region None reads pots orc in
+  length cs = Nat.min (length reads) (length pots) /\ sdg_b cs = true /\ forallb (inside region) cs = true /\
+  (forall k c r', nth_error cs k = Some c -> nth_error reads (Datatypes.S k) = Some r' -> snd c + 1 < fst r').
+Proof. intros Hs Hin. apply forallb_Forall in Hin.
+  assert (H1: Forall (fun r => snd r < snd region) reads) by (eapply Forall_impl; [|exact Hin]; unfold inside; intros; lia).
+  assert (H2: forall r, hd_error reads = Some r -> lower_of region None < fst r).
+  { intros r Hr. destruct reads as [|r' t]; [discriminate|]. inversion Hr; subst r'. inversion Hin; subst. unfold inside in *. cbn [lower_of]. lia. }
+  destruct (fuzzy_wf_prev region reads None pots orc Hs H1 H2) as (L & S & F & N). cbv zeta.
+  split; [exact L|]. split; [exact S|]. split; [|exact N].
+  apply forallb_Forall. eapply Forall_impl; [|exact F]. unfold inside. cbn [lower_of]. intros; lia. Qed.
+
+(* the code before the repair: a reference end beyond the read end is taken; the repaired choice keeps the read's own site *)
+Example fuzzy_unrepaired_inverted_refuted :
+  fuzzy_unrepaired [(1101,1299)] [(1101,1305)] [((0,0),(1,0))] = [(1101,1305)] /\
+  fuzzy (1000,1304) None [(1101,1299)] [(1101,1305)] [((0,0),(1,0))] = [(1101,1299)].
+Proof. vm_compute. split; reflexivity. Qed.
+
+(* ---------------------------------------------------------------- no event with a read region: events_wf holds by itself (repaired fuzzy choice) *)
+Lemma choose_features_length reads : forall ms, length (choose_features reads ms) = length reads.
+Proof. induction reads as [|r rs IH]; intros ms; [reflexivity|]. cbn [choose_features length]. now rewrite IH. Qed.
+Lemma potentials_length c : length (potentials c) = length (c_introns c).
+Proof. unfold potentials, match_genomic_features. apply choose_features_length. Qed.
+
+Lemma build_map_undefined fl evs : Forall (fun e => e_read e = (undefined_position, undefined_position)) evs -> build_map fl evs = [].
+Proof. unfold build_map. intros H. generalize (@nil (Z * event)). induction H as [|e t He Ht IH]; intros m; [reflexivity|]. cbn [fold_left]. rewrite He.
+  change (iv_eqb (undefined_position, undefined_position) (undefined_position, undefined_position)) with true. cbv iota. apply IH. Qed.
+
+(* the introns of exons with a gap between consecutive ones: well-formed, a base apart, strictly inside the hull *)
+Lemma jfb_sdg : forall ex d, sdg_b ex = true ->
+  sdg_b (jfb ex) = true /\ Forall (fun j => fst (hd d ex) < fst j /\ snd j < snd (last ex d)) (jfb ex).
+Proof. induction ex as [|a t IH]; intros d H; [split; [reflexivity|constructor]|]. destruct t as [|b t']; [split; [reflexivity|constructor]|].
+  assert (H': sdg_b (b :: t') = true) by (cbn [sdg_b] in H |- *; lia).
+  assert (Ha: fst a <= snd a /\ snd a + 1 < fst b) by (cbn [sdg_b] in H; lia).
+  assert (E: jfb (a :: b :: t') = (snd a + 1, fst b - 1) :: jfb (b :: t')).
+  { change (jfb (a :: b :: t')) with ((if snd a + 1 <? fst b then [(snd a + 1, fst b - 1)] else []) ++ jfb (b :: t')).
+    destruct (snd a + 1 <? fst b) eqn:C; [reflexivity|lia]. }
+  rewrite E. destruct (IH d H') as (S & F). cbn [hd] in F |- *.
+  pose proof (sd_hull (b :: t') d (sdg_b_sd _ H') ltac:(discriminate)) as Hh. cbn [hd] in Hh.
+  change (last (a :: b :: t') d) with (last (b :: t') d). split.
+  - cbn [sdg_b fst snd]. rewrite S. rewrite !andb_true_iff. split; [split; [lia|]|reflexivity].
+    destruct (jfb (b :: t')) as [|j u]; [reflexivity|]. inversion F; subst. lia.
+  - constructor; [cbn [fst snd]; lia|]. eapply Forall_impl; [|exact F]. cbv beta. intros; lia. Qed.
+
+Lemma py_nth_inrange {A} (l:list A) i : 0 <= i < Z.of_nat (length l) -> exists x, py_nth l i = Some x /\ nth_error l (Z.to_nat i) = Some x.
+Proof. intros Hi. unfold py_nth. destruct ((0 <=? i) && (i <? Z.of_nat (length l))) eqn:E; [|lia].
+  destruct (nth_error l (Z.to_nat i)) as [x|] eqn:N; [exists x; split; reflexivity|]. apply nth_error_None in N. lia. Qed.
+
+Section NoEvents.
+Variables (vr:variant) (fl:flags) (delta:Z) (rr:iv) (RI CI:list iv) (isoreg:iv) (II:list iv).
+Let n := Z.of_nat (length CI).
+(* with an empty event map the loop appends the corrected introns one by one *)
+Lemma step_nomap i : step_v vr fl delta rr RI CI isoreg II [] i = opt_block (py_nth CI i) (fun x => mkblock i (i + 1) [] [x] NoUpd).
+Proof. reflexivity. Qed.
+Lemma loop_nomap fuel : forall i, 0 <= i <= n -> n - i <= Z.of_nat fuel ->
+  exists bs, loop_v vr fl delta rr RI CI isoreg II [] fuel i = Ok bs /\
+             Forall (fun b => b_upd b = NoUpd) bs /\ forallb (block_ok n) bs = true /\ flat_map b_all bs = skipn (Z.to_nat i) CI.
+Proof. induction fuel as [|f IH]; intros i Hi Hf; cbn [loop_v]; unfold n_introns; fold n.
+  - destruct (i <? n) eqn:E; [lia|]. exists []. split; [reflexivity|]. split; [constructor|]. split; [reflexivity|].
+    cbn. symmetry. apply skipn_all2. subst n. lia.
+  - destruct (i <? n) eqn:E.
+    + rewrite step_nomap. destruct (py_nth_inrange CI i ltac:(subst n; lia)) as (x & P & N). rewrite P. unfold opt_block. cbn [b_next].
+      destruct (IH (i + 1) ltac:(lia) ltac:(lia)) as (bs' & L & F & B & E'). rewrite L.
+      exists (mkblock i (i + 1) [] [x] NoUpd :: bs'). split; [reflexivity|]. split; [constructor; [reflexivity|exact F]|]. split.
+      * cbn [forallb]. rewrite B. unfold block_ok. cbn [b_i b_next]. lia.
+      * cbn [flat_map]. rewrite E'. unfold b_all. cbn [b_fake b_emit app].
+        replace (Z.to_nat (i + 1)) with (Datatypes.S (Z.to_nat i)) by lia. symmetry. apply nth_error_skipn. exact N.
+    + exists []. split; [reflexivity|]. split; [constructor|]. split; [reflexivity|].
+      cbn. symmetry. apply skipn_all2. subst n. lia. Qed.
+End NoEvents.
+
+(* the corrected introns of a read whose exons have a gap between consecutive ones (repaired fuzzy choice): one per read intron,
+   well-formed, a base apart, strictly inside the read region - whatever the annotation, delta and get_error_count are *)
+Lemma corrected_introns_wf vr fl c : v_fuzzy vr = true -> sdg_b (c_exons c) = true ->
+  length (corrected_introns_v vr fl c) = length (c_introns c) /\ sdg_b (corrected_introns_v vr fl c) = true /\
+  forallb (inside (c_region c)) (corrected_introns_v vr fl c) = true.
+Proof. intros Hv Hs. destruct (jfb_sdg (c_exons c) (0,0) Hs) as (S & F). fold (c_introns c) in S, F.
+  assert (Hin: forallb (inside (c_region c)) (c_introns c) = true).
+  { apply forallb_Forall. eapply Forall_impl; [|exact F]. unfold inside, c_region, hull. cbn [fst snd]. intros; lia. }
+  unfold corrected_introns_v. destruct (f_fuzzy fl); [|repeat split; assumption]. rewrite Hv.
+  destruct (fuzzy_wf (c_region c) (c_introns c) (potentials c) (c_oracle c) S Hin) as (L & S' & I' & _).
+  rewrite potentials_length, Nat.min_id in L. repeat split; assumption. Qed.
+
+Theorem events_wf_no_events vr fl c : v_fuzzy vr = true -> sdg_b (c_exons c) = true -> c_exons c <> [] ->
+  Forall (fun e => e_read e = (undefined_position, undefined_position)) (c_events c) -> events_wf_v vr fl c = true.
+Proof. intros Hv Hs Hne He. unfold events_wf_v. rewrite Hs.
+  assert (Hl: (length (c_exons c) =? 0)%nat = false) by (destruct (c_exons c); [congruence|reflexivity]). rewrite Hl. cbn [negb andb].
+  destruct (early_return c); [reflexivity|]. cbn [orb].
+  destruct (corrected_introns_wf vr fl c Hv Hs) as (L & S & I).
+  unfold c_blocks_v, blocks_v. rewrite (build_map_undefined fl (c_events c) He).
+  destruct (loop_nomap vr fl (c_delta c) (c_region c) (c_introns c) (corrected_introns_v vr fl c) (c_isoreg c) (c_isointrons c)
+              (2 * length (corrected_introns_v vr fl c) + 2) 0 ltac:(lia) ltac:(lia)) as (bs & Lp & F & B & E).
+  rewrite Lp. cbv zeta. rewrite (emitted_nodrop bs F), (final_region_noupd (c_region c) bs F), E. cbn [Z.to_nat skipn].
+  rewrite <- L, B, (sdg_b_mono_b _ S), I. cbn [andb]. rewrite andb_true_r.
+  pose proof (sd_hull (c_exons c) (0,0) (sdg_b_sd _ Hs) Hne). unfold c_region, hull. cbn [fst snd]. lia. Qed.
+
+Theorem corrected_exons_wf_no_events vr fl c : v_fuzzy vr = true -> sdg_b (c_exons c) = true -> c_exons c <> [] ->
+  Forall (fun e => e_read e = (undefined_position, undefined_position)) (c_events c) ->
+  exists ex, correct_assigned_read_v vr fl c = Ok ex /\ sd ex.
+Proof. intros Hv Hs Hne He. pose proof (events_wf_no_events vr fl c Hv Hs Hne He) as W.
+  destruct (events_wf_returns_v vr fl c W) as (ex & Hex). exists ex. split; [exact Hex|exact (corrected_exons_wf_v vr fl c ex W Hex)]. Qed.
+
+(* the code before the repair: the annotated intron (1101,1305) within delta of the read intron (1101,1299) ends beyond the read's
+   last exon (1300,1304); one indel next to the right site makes the code take the reference end, and the last exon comes out inverted *)
+Definition fuzzy_end_input := mkcin [(1000,1100);(1300,1304)] false true
+  [mkev MES_none_ (undefined_position,undefined_position) (undefined_position,undefined_position)]
+  [(1101,1305)] (1000,1500) [(1101,1305)] [((0,0),(1,0))] 6.
+Example events_wf_no_events_unrepaired_refuted :
+  correct_assigned_read_unrepaired (strategy_flags St_default_ont) fuzzy_end_input = Ok [(1000,1100);(1306,1304)] /\
+  events_wf_v unrepaired (strategy_flags St_default_ont) fuzzy_end_input = false /\
+  correct_assigned_read (strategy_flags St_default_ont) fuzzy_end_input = Ok [(1000,1100);(1300,1304)].
+Proof. vm_compute. repeat split; reflexivity. Qed.
